@@ -1,6 +1,7 @@
 import NitroVerif.Lemmas.UsageWidth
 import NitroVerif.Lemmas.UsageForced
 import NitroVerif.Lemmas.UsageSection
+import NitroVerif.Generated.UsageLayout
 import NitroVerif.Model.Usage
 import NitroVerif.Props.C17
 
@@ -337,6 +338,21 @@ theorem width_group (g : Group) (hne : g.entries ≠ []) (hn : '\n' ∉ g.name) 
       [0, g.name.length + 1] ++ (if g.description ≠ [] then [0, g.description.length, 0] else []) ++
         (g.entries.flatMap entryCores).map (·.1) ++ [0] :=
   group_lines g hne hn hd h
+
+/-- **The model's layout constants are the source's**: the padding and width handed to `format_padded` by
+`base::format` (40, 80) and by `parser::usage` (8 + |app|, 80) are read off the two call sites on every run
+(`Generated/UsageLayout.lean`); the width theorems above are stated for exactly these numbers. -/
+theorem model_layout_is_source :
+    Generated.usageLayoutExtracted = true ∧
+    (∀ e : Entry, formatEntry e = entryLeft e ++
+      (if entryText e ≠ [] then
+        formatPadded (entryLeft e).length (entryText e) Generated.entryPadSrc Generated.entryWidthSrc else []) ++ ['\n']) ∧
+    (∀ (d : UDecl) (t o m l : List Entry), synopsisPara d t o m l = "usage: ".toList ++ d.app ++
+      (if synopsisText d t o m l ≠ [] then
+        formatPadded ("usage: ".toList ++ d.app).length ((synopsisText d t o m l).drop 1)
+          ((Generated.synopsisPadBaseSrc + d.app.length : Nat) : Int) Generated.synopsisWidthSrc
+      else [])) :=
+  ⟨rfl, fun _ => rfl, fun _ _ _ _ _ => rfl⟩
 
 -- non-vacuity: two entries, the second with a 45-character word that can never fit behind the 40-column padding, meet
 -- the hypotheses (no line break in the left column or the text); evaluated by the driver their ghost is
